@@ -72,7 +72,7 @@ def classify(ctx, c):
     return True
 
 
-def certify(ctx, cases, stats):
+def certify(ctx, cases, stats, allow_partition=False):
     """T-val: evaluate the certified validator nest_okb on the structure read off every plain program."""
     import nestview
     from vlib import cstr, clist
@@ -84,9 +84,13 @@ def certify(ctx, cases, stats):
             continue
         seen.add(c.text)
         try:
-            L, shape, views, acc, lv, outr, sels = nestview.extract(c.spec, c.text)
+            if allow_partition:
+                L, shape, views, acc, lv, outr, sels, part = nestview.extract(c.spec, c.text, allow_partition=True)
+                c.part = part
+            else:
+                L, shape, views, acc, lv, outr, sels = nestview.extract(c.spec, c.text)
         except nestview.NotANest as e:
-            k = str(e).split(" ")[0]
+            k = " ".join(str(e).split(" ")[:2 if allow_partition else 1])
             stats["tval"]["not_a_plain_nest"][k] = stats["tval"]["not_a_plain_nest"].get(k, 0) + 1
             continue
         cl = clist(map(cstr, L))
